@@ -340,11 +340,19 @@ pub fn replay(property: &str, path: &str) -> i32
     if a.trace != b.trace { eprintln!("machinery error: nondeterministic replay"); return 2; }
     for (i, e) in a.trace.iter().enumerate() { println!("{i}: {:?}", e); }
     let out = run_monitor(&cfg, &a.trace);
+    let findings = load_findings().unwrap_or_default();
     let mut hit = false;
     for viol in out.violations.iter()
     {
         println!("{} {} {} :: {}", viol.property, viol.rule, viol.signature, viol.detail);
-        if viol.property == property || viol.property == "*" { hit = true; }
+        if viol.property == property || viol.property == "*"
+        {
+            match classify(&findings, viol)
+            {
+                Some(k) => println!("KNOWN-FINDING: property={} {} ({})", property, k.id, k.description),
+                None => hit = true,
+            }
+        }
     }
     if hit { println!("VIOLATION property={property} replay={path}"); 1 } else { println!("no violation of {property} in this replay"); 0 }
 }
